@@ -4,12 +4,15 @@
 mod tc_common;
 use verif_harness::*;
 
-pub fn run(line: &str) -> String {
+fn run_direct(line: &str) -> String {
     match tc_common::decode(line) {
         None => "bad-case".to_string(),
         Some(c) => tc_common::run_case(&c).0,
     }
 }
+
+// every case runs in a worker process under a watchdog: `hang` / `crash:<rc>` instead of a verdict
+pub fn run(line: &str) -> String { tc_common::guarded(line, run_direct) }
 
 fn main() {
     main_loop(Harness {
